@@ -27,7 +27,13 @@ BODIES = {
 }
 
 
+WHO = {'none': 'main', 'api': 'sub', 'zzz': 'last'}
+
+
 def status_custom(codes):
+    """looks at the whole tuple of codes: how many there are and whether any is an error"""
+    if len(codes) > 1:
+        return 202 if all(c == 0 for c in codes) else 207
     return 201 if all(c == 0 for c in codes) else 422
 
 
@@ -57,7 +63,8 @@ def media_header(m):
         return None
     b = m['base']
     return {'plain': b, 'charset': b + '; charset=utf-8', 'upper': b.upper(), 'charset_upper': b.upper() + '; Charset=UTF-8',
-            'spaces': b + ' ; charset=utf-8'}[m['variant']]
+            'spaces': b + ' ; charset=utf-8', 'charset_ascii': b + '; charset=us-ascii',
+            'charset_latin1': b + '; charset=iso-8859-1'}[m['variant']]
 
 
 def reference(who, text_bytes, coro, loop):
@@ -112,8 +119,8 @@ def flask_app(fn):
 def werkzeug_app(prefix):
     import werkzeug.test
     from pjrpc.server.integration import werkzeug as integ
-    j = integ.JsonRPC('/rpc' if prefix == 'none' else '/rpc/api')
-    register(j.dispatcher, 'main' if prefix == 'none' else 'sub', False)
+    j = integ.JsonRPC({'none': '/rpc', 'api': '/rpc/api', 'zzz': '/rpc/zzz'}[prefix])
+    register(j.dispatcher, WHO[prefix], False)
     return werkzeug.test.Client(j)
 
 
@@ -124,7 +131,8 @@ def aiohttp_client(fn, loop):
     j = integ.Application('/rpc', **kw)
     register(j.dispatcher, 'main', True)
     register(j.add_endpoint('/api'), 'sub', True)
-    register(j.add_endpoint('/zzz'), 'last', True)
+    from aiohttp import web
+    register(j.add_endpoint('/zzz', subapp=web.Application()), 'last', True)      # served by a sub-application of its own
 
     async def mk():
         server = test_utils.TestServer(j.app)
@@ -144,8 +152,8 @@ def run(scn, loop):
     r = scn['req']
     body = BODIES[r['body']]
     header = media_header(r['media'])
-    who = 'main' if r['prefix'] == 'none' else 'sub'
-    path = '/rpc' if r['prefix'] == 'none' else '/rpc/api'
+    who = WHO[r['prefix']]
+    path = {'none': '/rpc', 'api': '/rpc/api', 'zzz': '/rpc/zzz'}[r['prefix']]
     del EXECS[:]
     headers = {} if header is None else {'Content-Type': header}
     try:
